@@ -5,7 +5,7 @@ WithField(S) == {[c |-> c, field |-> SrcField(c), smask |-> [p \in 1..NS(c) |-> 
                   tmask |-> [p \in 1..NT(c) |-> TMask(c, p)]] : c \in S}
 Out == CASE IOEnv.WHAT = "nearest" -> SetToSeq(WithField(NearestCases(0)))
          [] IOEnv.WHAT = "identity" -> SetToSeq(WithField(IdCases(0)))
-         [] IOEnv.WHAT = "mesh" -> SetToSeq(WithField(MeshCases(0) \cup MeshTargetCases(0)))
+         [] IOEnv.WHAT = "mesh" -> SetToSeq(WithField(MeshCases(0) \cup MeshTargetCases(0) \cup {c \in Near3D(0) : c.su \in Hows(c.src) /\ c.tu \in Hows(c.dst) /\ Live(c) # {}}))
          [] IOEnv.WHAT = "linear" -> SetToSeq(WithField(LinearCases(0)))
 (* between layouts of one grid nearest-neighbour regridding is the identity (theorem on the spec) *)
 ASSUME IOEnv.WHAT = "identity" =>
